@@ -104,6 +104,7 @@ func c09ResetGlobals() {
 // ---------------------------------------------------------------- question tagging
 
 var c09Names = []string{"a.c09.test.", "b.c09.test.", "a.b.c09.test."}
+
 // qtype pool: the common ones, neighbours (64/65), and types that share their low
 // byte with another one (1/257/513/65281, 255/65535, 0/256 -> 256) so that any
 // narrowing of the type in a cache / singleflight key shows.
@@ -152,13 +153,13 @@ func c09TagTxt(name string, qtype uint16) string {
 
 // answer kinds of a "right" answer
 const (
-	c09AnsAddr  = iota // one tagged RR, TTL 60 (cached)
-	c09AnsTTL0         // one tagged RR, TTL 0 (cache entry is born expired -> per-waiter copy path)
-	c09AnsNX           // NXDOMAIN, not cached -> per-waiter copy path
-	c09AnsEmpty        // NOERROR, no answer (cached with the 120 s floor)
-	c09AnsCname        // CNAME to a tagged target + tagged address RR
-	c09AnsTTL2         // one tagged RR, TTL 2: expires long before the janitor's next pass
-	c09AnsCnameAddr1st // like c09AnsCname, address record first: the first record's owner is not the asked name
+	c09AnsAddr         = iota // one tagged RR, TTL 60 (cached)
+	c09AnsTTL0                // one tagged RR, TTL 0 (cache entry is born expired -> per-waiter copy path)
+	c09AnsNX                  // NXDOMAIN, not cached -> per-waiter copy path
+	c09AnsEmpty               // NOERROR, no answer (cached with the 120 s floor)
+	c09AnsCname               // CNAME to a tagged target + tagged address RR
+	c09AnsTTL2                // one tagged RR, TTL 2: expires long before the janitor's next pass
+	c09AnsCnameAddr1st        // like c09AnsCname, address record first: the first record's owner is not the asked name
 	c09AnsKinds
 )
 
@@ -411,14 +412,14 @@ func (w *c09Writer) WriteMsg(m *dnsmessage.Msg) error {
 // ---------------------------------------------------------------- scripted fake forwarder
 
 const (
-	c09ActOK      = iota // right answer (possibly late: the ctx may have expired while parked)
-	c09ActForeign        // answer to a different question under the right ID
-	c09ActTrunc          // TC=1 (UDP only): (&msg, ErrDNSTruncated) as DoUDP does
-	c09ActTimeout        // nothing: wait for the ctx, return its error
-	c09ActError          // transport error
-	c09ActCanceled       // context.Canceled-like error (must not retire the forwarder)
-	c09ActAbort          // teardown
-	c09ActCtxCanceled    // not drawn: the call's own context was cancelled while it was parked
+	c09ActOK          = iota // right answer (possibly late: the ctx may have expired while parked)
+	c09ActForeign            // answer to a different question under the right ID
+	c09ActTrunc              // TC=1 (UDP only): (&msg, ErrDNSTruncated) as DoUDP does
+	c09ActTimeout            // nothing: wait for the ctx, return its error
+	c09ActError              // transport error
+	c09ActCanceled           // context.Canceled-like error (must not retire the forwarder)
+	c09ActAbort              // teardown
+	c09ActCtxCanceled        // not drawn: the call's own context was cancelled while it was parked
 )
 
 var c09ActNames = []string{"ok", "foreign", "trunc", "timeout", "error", "canceled", "abort", "ctx-cancelled"}
@@ -539,14 +540,14 @@ type c09Fwd struct {
 }
 
 type c09Call struct {
-	fwd      *c09Fwd
-	serial   int
-	req      *dnsmessage.Msg
-	ctx      context.Context
-	ch       chan c09Action
-	released bool
-	returned bool
-	act      c09Action
+	fwd           *c09Fwd
+	serial        int
+	req           *dnsmessage.Msg
+	ctx           context.Context
+	ch            chan c09Action
+	released      bool
+	returned      bool
+	act           c09Action
 	lateAtRelease bool
 	ctxCancelled  bool // returned on its own because its context was cancelled
 }
